@@ -142,3 +142,22 @@ def nested_load(blob, adds=None):
     from fickling.ml import FicklingMLUnpickler
     LOG.append(("nested_load", (len(blob), tuple(adds or ())), {}))
     return FicklingMLUnpickler(io.BytesIO(blob), also_allow=list(adds) if adds else None).load()
+
+
+def _masquerade():
+    import collections
+    import functools
+
+    @functools.wraps(collections.OrderedDict)
+    def masquerade(*args, **kwargs):
+        LOG.append(("masquerade", args, kwargs))
+        return "masquerade-result"
+    return masquerade
+
+
+# a recording function that *reports* an allow-listed identity (what functools.wraps does for a tracing shim around
+# collections.OrderedDict): __module__ == "collections", __qualname__ == "OrderedDict" - its name in a pickle is still
+# vp_sink.masquerade
+masquerade = _masquerade()
+# ... and a plain re-export of an allow-listed object under a name that is not allow-listed
+OrderedDictAlias = __import__("collections").OrderedDict
